@@ -44,8 +44,8 @@ def valOf : Sexp → Option Val
   | .list [.atom "ie", c, v] => do pure (.intEnum (← c.nat?) (← v.int?))
   | .list [.atom "c", i, e, w] => do pure (.cls (← i.nat?) (← boolOf e) (← boolOf w))
   | .list [.atom "k", .atom k, .list items] => do pure (.coll (← collKindOf k) (← items.mapM itemOf))
-  | .list [.atom "fd", f, c, r, h] => do pure (.fdict (← ovOf f) (← ovOf c) (← r.nat?) (← boolOf h))
-  | .list [.atom "d", n] => do pure (.dict (← n.nat?))
+  | .list [.atom "fd", f, c, r, h, ki] => do pure (.fdict (← ovOf f) (← ovOf c) (← r.nat?) (← boolOf h) (← boolOf ki))
+  | .list [.atom "d", n, ki] => do pure (.dict (← n.nat?) (← boolOf ki))
   | .list [.atom "o", n] => do pure (.obj (← n.nat?))
   | _ => none
 
@@ -76,8 +76,8 @@ def valS : Val → Sexp
   | .intEnum c v => .list [.atom "ie", nS c, iS v]
   | .cls i e w => .list [.atom "c", nS i, bS e, bS w]
   | .coll k items => .list [.atom "k", .atom (collKindS k), .list (items.map itemS)]
-  | .fdict f c r h => .list [.atom "fd", ovS f, ovS c, nS r, bS h]
-  | .dict n => .list [.atom "d", nS n]
+  | .fdict f c r h ki => .list [.atom "fd", ovS f, ovS c, nS r, bS h, bS ki]
+  | .dict n ki => .list [.atom "d", nS n, bS ki]
   | .obj n => .list [.atom "o", nS n]
 
 def envOf : Sexp → Option (Option String)
